@@ -262,7 +262,53 @@ pub fn run(ctx: &mut Ctx) {
         }
         Ok(())
     });
+    // scale: a metadata value of 4 K .. 200 K characters (multi-byte and astral fill, both parities of the
+    // UTF-16 unit index), plain and with an invalid sequence / unpaired surrogate near a power-of-two offset
+    let cases = ctx.tier.pick(160u64, 1_600u64);
+    ctx.pbt("c10-long-lines", cases, 64, |t, st| {
+        use crate::gen::doc::{long_fill, long_len};
+        let n = long_len(t);
+        let key = *t.pick(&["Tags: ", "TitleUnicode:", "ArtistUnicode: ", "Source:"]);
+        let fill = long_fill(t, n);
+        let text = format!("osu file format v14\n\n[Metadata]\nTitle:t\n{key}{fill}\nVersion:v\n\n[HitObjects]\n100,100,1000,1,0\n");
+        st.eval();
+        st.label("very long line");
+        check_encodings(&text).map_err(|m| Fail::new(m, "osu", encode_text(&text, Enc::Utf16Le)))?;
+        if !fill.is_ascii() {
+            st.nontrivial(hash64(&text));
+        }
+        let near = |t: &mut Tape, len: usize| -> usize {
+            let base = *t.pick(&[4096usize, 8192, 16384, 32768, 65536, 131072]);
+            ((base as i64 + t.int(-6, 6)).max(0) as usize).min(len)
+        };
+        if t.chance(50) {
+            let mut bytes = text.clone().into_bytes();
+            let pos = near(t, bytes.len());
+            let bad = *t.pick(BAD_UTF8);
+            for (k, b) in bad.iter().enumerate() {
+                bytes.insert(pos + k, *b);
+            }
+            st.label("invalid UTF-8 near a power-of-two offset");
+            check_utf8_lossy(&bytes).map_err(|m| Fail::new(m, "osu", bytes.clone()))?;
+        }
+        if t.chance(50) {
+            let mut units: Vec<u16> = text.encode_utf16().collect();
+            let pos = near(t, units.len());
+            units.insert(pos, *t.pick(&[0xD800u16, 0xDC00, 0xDBFF, 0xD80A, 0xDFFF]));
+            let le = t.chance(50);
+            st.label("unpaired surrogate near a power-of-two offset");
+            check_utf16_lossy(&units, le, None).map_err(|m| {
+                let mut b: Vec<u8> = if le { vec![0xFF, 0xFE] } else { vec![0xFE, 0xFF] };
+                for u in &units {
+                    b.extend(if le { u.to_le_bytes() } else { u.to_be_bytes() });
+                }
+                Fail::new(m, "osu", b)
+            })?;
+        }
+        Ok(())
+    });
 }
+
 
 pub fn replay(_ctx: &mut Ctx, ext: &str, bytes: &[u8]) -> Result<Option<String>, Fail> {
     if ext == "tape" {
